@@ -2,7 +2,7 @@
 import copy
 from .. import tlc, gen, common, scn_replay
 
-OPS = '{"RegMgr","Register","Run","RestRun","SetProp","Begin","BeginWide","Step","End","ResetCache"}'
+OPS = '{"RegMgr","Register","Run","RestRun","SetProp","Begin","BeginWide","BeginMgrs","Step","End","ResetCache"}'
 
 
 def consts(mgrs='{"m1","m2"}', scs='{"a","b"}', kv='{0,3,5}', tabs='{"","B","C"}', rss='{"","r1","r2"}', dev='{}', ops=OPS):
@@ -40,6 +40,14 @@ def run(tier, replay_file=None):
                             extra_cfg={"action_constraints": ["MC_Wide"]})
     bfs = bfs + (wide if not quick else __import__("random").Random(common.seed()).sample(wide, min(len(wide), 120)))
     R.cov["wide_session_histories"] = len(wide)
+    # ... and a session over the same-named scenario of TWO managers registered from one model, settings for one manager only
+    wide2, _ = gen.histories("Scenario", consts('{"m1","m2"}', '{"a"}', kv='{0,3}', tabs='{""}', rss='{""}',
+                                                ops='{"RegMgr","Register","Begin","BeginWide","BeginMgrs","Step","End","Run"}'), 7,
+                             defs='MC_Wide2 == LET n == Len(hist) IN /\\ (n \\in {0, 1} => hist\'[n + 1].op = "RegMgr") /\\ (n \\in {2, 3} => hist\'[n + 1].op = "Register")\n'
+                                  '                                   /\\ (n = 4 => hist\'[5].op = "Begin" /\\ hist\'[5].sibs # {}) /\\ (n \\in {5, 6} => hist\'[n + 1].op \\in {"Step", "End", "Run"})\n',
+                             extra_cfg={"action_constraints": ["MC_Wide2"]})
+    bfs = bfs + (wide2 if not quick else __import__("random").Random(common.seed() + 1).sample(wide2, min(len(wide2), 120)))
+    R.cov["two_manager_session_histories"] = len(wide2)
     R.cov["bfs_histories"], R.cov["sim_histories"] = len(bfs), len(sets)
     probes = 0
     for hist in bfs + sets:
